@@ -1,11 +1,14 @@
 // ---- env/anyhow.rs: anyhow::Error / Result / Context / anyhow! / format! (opaque) -------------
 #[derive(Debug)]
 pub struct AnyErr { pub _p: u8 }
+#[allow(unused_macros)]
+macro_rules! __anyhow_path_macro { ($($t:tt)*) => { crate::mk_anyhow() } }
 pub mod anyhow {
     pub type Error = super::AnyErr;
     pub type Result<T> = ::std::result::Result<T, super::AnyErr>;
+    #[allow(unused_imports)]
+    pub(crate) use __anyhow_path_macro as anyhow;
 }
-pub use anyhow::Result;
 #[verifier::external_body]
 pub fn mk_anyhow() -> AnyErr { unimplemented!() }
 #[verifier::external_body]
@@ -15,14 +18,4 @@ pub fn mk_string() -> String { unimplemented!() }
 macro_rules! anyhow { ($($t:tt)*) => { mk_anyhow() } }
 #[allow(unused_macros)]
 macro_rules! format { ($($t:tt)*) => { mk_string() } }
-pub trait Context<T> { fn context(self, c: &'static str) -> (r: Result<T>); }
-impl<T> Context<T> for ::std::result::Result<T, std::time::SystemTimeError> {
-    #[verifier::external_body]
-    fn context(self, c: &'static str) -> (r: Result<T>)
-        ensures (r is Ok) == (self is Ok), self is Ok ==> r->Ok_0 == self->Ok_0,
-    { unimplemented!() }
-}
-impl ::std::convert::From<std::time::SystemTimeError> for AnyErr {
-    #[verifier::external_body]
-    fn from(e: std::time::SystemTimeError) -> AnyErr { unimplemented!() }
-}
+pub trait Context<T> { fn context(self, c: &'static str) -> (r: anyhow::Result<T>); }
